@@ -54,8 +54,24 @@ def handleFault (initS clientS : String) (out : List String) : Verdict :=
     verdict same ok (dinfo ++ (cond ok "" "sig=acknowledged-but-not-registered"))
   | _, _, _, _, _ => .bad "C04 ucf parse"
 
+/-- `wpar <k> <rounds>`: concurrent reporters against the real component; tokens `<ip>:<port>:<idhex>:<replyhex>`, one per
+distinct reply a socket received.  Every reply must be `heartbeatReply` for the socket's own instance id, address and port
+(the registry state after the run is not compared: the order of concurrent commits is free). -/
+def handleWpar (out : List String) : Verdict :=
+  let bad := out.filter fun tok =>
+    match tok.splitOn ":" with
+    | [ip, port, id, reply] =>
+      (match Rep.parseIp ip, port.toNat?, hex? id, hex? reply with
+       | some ip, some port, some id, some reply => reply != Heartbeat.heartbeatReply id ip port
+       | _, _, _, _ => true)
+    | _ => true
+  if out.isEmpty then .bad "C04 wpar: no output"
+  else if bad.isEmpty then .agree
+  else .disagreeFails s!"sig=reply-not-the-senders {" ".intercalate (bad.take 3)}"
+
 def handle (args out : List String) : Verdict :=
   match args with
+  | ["wpar", _, _] => handleWpar out
   | ["ucf", initS, clientS, _] => handleFault initS clientS out
   | _ =>
   match records args out with
